@@ -188,8 +188,8 @@ def analyse(ctx: Ctx) -> None:
         ctx.obligation(f"tree_copy.decorated/{k}", stt, backend="pyvc object-graph analysis", seconds=dt / 4,
                        detail=detail.get(k))
         if stt == "violated":
-            witness = {"history": ["t = parse('[1] U [2]')", "t.children[0].children[0] = Token('CONDITION_KEY', '777')",
-                                   "parse('[1] U [2]')"]}
+            witness = {"history": ["for s in ('[1]', '[1] U [2]', 'Muss [1] Kann'): t = parse(s)",
+                                   "replace / append children of t and of its sub-trees in place", "parse(s) again"]}
             bad, msg = replay_history()
             ctx.violation(f"tree_copy.decorated/{k}", f"{detail.get(k)}; {msg}", witness=witness if bad else None,
                           replayed=bool(bad), signature=f"tree_copy/{k}",
@@ -200,20 +200,25 @@ def analyse(ctx: Ctx) -> None:
 
 
 def replay_history() -> Tuple[bool, str]:
-    """the generic witness of an ownership violation, replayed on the real parser: parse, edit the returned tree at
-    depth 1 and 2, parse again"""
-    from lark import Token
+    """the generic witness of an ownership violation, replayed on the real parsers: parse, edit the returned tree in
+    place (at the root and one level down), parse the same string again - for a flat, a nested and an AHB expression"""
+    from lark import Token, Tree
 
-    from ahbicht.expressions.condition_expression_parser import _parser, parse_condition_expression_to_tree
-    s = "[1] U [2]"
-    ref = _parser.parse(s)
-    t = parse_condition_expression_to_tree(s)
-    t.children[0].children[0] = Token("CONDITION_KEY", "777")
-    t.children.append(Token("CONDITION_KEY", "888"))
-    t2 = parse_condition_expression_to_tree(s)
-    if t2 != ref:
-        return True, f"replay on the real code: after editing a returned tree, parse({s!r}) returns {t2!r}"
-    return False, "replay on the real code: the edited tree did not leak into later parses"
+    from ahbicht.expressions import ahb_expression_parser as ap
+    from ahbicht.expressions import condition_expression_parser as cp
+    for parse, raw, s in ((cp.parse_condition_expression_to_tree, cp._parser, "[1]"),
+                          (cp.parse_condition_expression_to_tree, cp._parser, "[1] U [2]"),
+                          (ap.parse_ahb_expression_to_single_requirement_indicator_expressions, ap._parser, "Muss [1] Kann")):
+        ref = raw.parse(s)
+        t = parse(s)
+        for sub in [t] + [c for c in t.children if isinstance(c, Tree)]:
+            if sub.children:
+                sub.children[0] = Token("CONDITION_KEY", "777")
+            sub.children.append(Token("CONDITION_KEY", "888"))
+        t2 = parse(s)
+        if t2 != ref:
+            return True, f"replay on the real code: after editing a returned tree in place, parse({s!r}) returns {t2!r}"
+    return False, "replay on the real code: the edited trees did not leak into later parses"
 
 
 def run(ctx: Ctx) -> None:
